@@ -543,18 +543,54 @@ def gen_px(rng, tier):
 
 
 def px_finding_key(case, r):
-    """known-finding keys of the Paxos cases (r = result of the real proposer node)"""
+    """known-finding keys of the Paxos cases (r = result of the real proposer node).  A key is returned only
+    when the violation is EXPLAINED by the recorded mechanism, so that any other divergence is still reported:
+    - px/slot-reuse-after-leader-change: the election quorum's logs are non-empty, in every tick the new
+      payloads got exactly the slots (max slot in those logs)+1.. (the recorded rule), and every pair of
+      different values for one (slot, ballot) consists of two such new-payload p2as of different ticks;
+    - px/quorum-counts-replies-not-acceptors: every slot reported decided without Ok replies of f+1 distinct
+      acceptors had at least f+1 Ok REPLIES for (slot, leader ballot) fed before."""
     if r is None or "ticks" not in r:
         return None
     if case["k"] == "px_seq":
-        vals = {}
-        for t in r["ticks"]:
+        slots = [e[0] for l in case["logs"] for e in l["entries"]]
+        if not slots:
+            return None
+        base = max(slots) + 1
+        bal = [case["prev"][0] + 1, 0]
+        new = {}                                   # slot -> set of (tick, value) of predicted new-payload p2as
+        allv = {}
+        for j, (ps, t) in enumerate(zip([[]] + case["ticks"], r["ticks"][3:])):
+            got = set((m[3], m[4]) for m in t["p2a"] if m[2] == bal)
             for m in t["p2a"]:
-                vals.setdefault((m[3], tuple(m[2])), set()).add(m[4])
-        if any(len(v) > 1 for v in vals.values()):
-            return "px/slot-reuse-after-leader-change"
+                if m[2] != bal:
+                    return None
+                allv.setdefault(m[3], set()).add(m[4])
+            for i, pv in enumerate(ps):
+                if (base + i, pv) not in got:
+                    return None                    # not the recorded slot rule
+                new.setdefault(base + i, set()).add((j, pv))
+        bad = [sl for sl, vs in allv.items() if len(vs) > 1]
+        if not bad:
+            return None
+        for sl in bad:
+            nv = set(v for _, v in new.get(sl, ()))
+            if allv[sl] != nv or len(set(j for j, _ in new[sl])) < 2:
+                return None                        # a conflict the recorded mechanism does not explain
+        return "px/slot-reuse-after-leader-change"
     if case["k"] == "px_prop":
-        return "px/quorum-counts-replies-not-acceptors"
+        bal, oks, explained = None, [], False
+        for t, o in zip(case["ticks"], r["ticks"]):
+            if o["leader"]:
+                bal = o["leader"][-1]
+            oks += [(m[0], m[1]) for m in t.get("p2b", []) if "ok" in m[3] and m[2] == bal]
+            for d in o["decided"]:
+                mine = [a for a, sl in oks if sl == d[0]]
+                if len(set(mine)) < 2:
+                    if len(mine) < 2:
+                        return None                # decided without even f+1 replies: something else
+                    explained = True
+        return "px/quorum-counts-replies-not-acceptors" if explained else None
     return None
 
 
